@@ -36,8 +36,8 @@ TRUSTED = ["CPython 3.12 dataclasses module as the property oracle (run, not mod
 ASSUMPTIONS = ["CPython 3.12 dataclasses semantics", "no inheritance between dataclasses, no ClassVar, no KW_ONLY sentinel, no slots"]
 
 # flags to flip after the proposed fixes are applied to the tree (env C30_FX_<NAME>=1 overrides)
-FX = {"HASH_IS_NONE": os.environ.get("C30_FX_HASH_IS_NONE", "0"),     # proposed_fixes/C30-hash_ignores_compare_false.diff
-      "MATCH_INIT": os.environ.get("C30_FX_MATCH_INIT", "0")}         # proposed_fixes/C30-match_args_includes_init_false.diff
+FX = {"HASH_IS_NONE": os.environ.get("C30_FX_HASH_IS_NONE", "1"),     # proposed_fixes/C30-hash_ignores_compare_false.diff
+      "MATCH_INIT": os.environ.get("C30_FX_MATCH_INIT", "1")}         # proposed_fixes/C30-match_args_includes_init_false.diff
 
 OPT_NAMES = ["init", "repr", "eq", "order", "unsafe_hash", "frozen", "match_args", "kw_only"]
 OPT_DEFAULT = dict(init=True, repr=True, eq=True, order=False, unsafe_hash=False, frozen=False, match_args=True, kw_only=False)
